@@ -326,6 +326,20 @@ def build_unit(u, tier, workdir, cfg, extra_defs=(), tag="p"):
         if u["enforce"] or u["replace"] or u["loops"]:
             raise ToolError("unit %s: nodfcc is incompatible with contracts" % u["unit"])
         igb = gb
+        if u.get("havoc_functions"):
+            # callees that have their own unit and no effect this unit looks at: body replaced by "return an arbitrary value"
+            igb2 = os.path.join(workdir, "%s.%s.h.gb" % (u["unit"], tag))
+            gi = ["goto-instrument"]
+            for f in u["havoc_functions"]:
+                gi += ["--remove-function-body", f]
+            gi += ["--generate-function-body", "|".join("(%s)" % f for f in u["havoc_functions"]),
+                   "--generate-function-body-options", "nondet-return", gb, igb2]
+            cmds.append(" ".join(gi))
+            rc, out, err, _ = sh(gi, timeout=300)
+            if rc != 0:
+                raise ToolError("goto-instrument (havoc_functions) failed for %s: %s" % (u["unit"], (out + err)[-2000:]))
+            gb = igb2
+            igb = gb
         if u.get("cut_functions"):
             # functions the unit's precondition makes unreachable but whose bodies symex would still explore (e.g. the mutually
             # recursive append path of the option editors): body replaced by assert(false); assume(false) - reaching one fails
